@@ -294,6 +294,7 @@ def to_str(I, v):
 
 PY_STR = z3.Function("py_str", V.Val, z3.StringSort())
 PY_SORTED = z3.Function("py_sorted", V.VL, V.VL)
+SET_DIFF = z3.Function("set_difference_members", V.VL, V.VL, V.VL)
 PY_JOIN = z3.Function("py_join", z3.StringSort(), V.Val, z3.StringSort())
 
 
@@ -322,6 +323,14 @@ def binop(I, op, a, b):
         if entailed(I, z3.And(V.is_VInt(ia), V.is_VInt(ib))):
             return SV(V.VInt(V.vi(ia) + V.vi(ib)))
         raise Unsupported("+ on symbolic operands of unknown kind")
+    if isinstance(op, ast.Sub) and isinstance(a, MSet) and isinstance(b, MSet):
+        # a - b: some enumeration of the members of a that are not members of b (declared; membership quantified)
+        _used("set difference: a declared enumeration with  x in (a - b)  <=>  x in a and not x in b")
+        r = SET_DIFF(a.elems, b.elems)
+        x = z3.Const("__diff_member__", V.Val)
+        I.p.assume(z3.ForAll([x], V.vl_contains(r, x) == z3.And(V.vl_contains(a.elems, x), z3.Not(V.vl_contains(b.elems, x))),
+                             patterns=[V.vl_contains(r, x)]))
+        return MSet(r)
     if isinstance(op, (ast.Sub, ast.Mult)):
         ia, ib = lower(a), lower(b)
         if entailed(I, z3.And(V.is_VInt(ia), V.is_VInt(ib))):
@@ -382,6 +391,8 @@ def get_item(I, o, k):
             raise PyRaise(ex)
     if isinstance(o, MDict):
         kt = lower(k)
+        for lem in comp_dict_lemmas(o.t, kt):
+            I.p.assume(lem)
         has = V.dhas(V.vd(o.t), kt)
         if not I.p.branch(has, "mdict-key-present"):
             raise PyRaise(KeyError("<symbolic key>"))
@@ -573,7 +584,9 @@ def symbolic_comprehension(I, e, env, module):
     # map fusion: a comprehension over the result of another (unfiltered) comprehension ranges over the inner source
     pre_image = None
     xs_s = z3.simplify(xs)
-    if z3.is_app(xs_s) and xs_s.decl().name() in _MAP_BY_NAME and _MAP_BY_NAME[xs_s.decl().name()]["keep"] is None \
+    keyed_by_elem = isinstance(e, ast.DictComp) and isinstance(e.key, ast.Name) and isinstance(g.target, ast.Name) \
+        and g.target.id == e.key.id and not g.ifs
+    if not keyed_by_elem and z3.is_app(xs_s) and xs_s.decl().name() in _MAP_BY_NAME and _MAP_BY_NAME[xs_s.decl().name()]["keep"] is None \
             and xs_s.num_args() == 1:
         inner = _MAP_BY_NAME[xs_s.decl().name()]
         xs = xs_s.arg(0)
@@ -611,6 +624,12 @@ def symbolic_comprehension(I, e, env, module):
     m["xs"] = xs
     MAPS[ent["name"]] = m
     I.p.maps_used[ent["name"]] = m
+    if is_dict and keyed_by_elem:
+        # {x: value(x) for x in xs}: an association list that may repeat a key, always with the same value (the value is a function of
+        # the key): lookups (first binding) agree with Python's (last binding).  A new dict object: the code may go on updating it
+        _used("{x: f(x) for x in list}: association list of (x, f(x)); lookups only (a repeated key has the same value)")
+        ent["keyed_by_elem"] = True
+        return MDict(V.VDict(f(xs)))
     if is_dict:
         # keys of the result: distinct provided the key expression maps distinct source keys to distinct keys; the
         # code under contract only uses the identity on the source dict's keys (checked here)
@@ -621,6 +640,23 @@ def symbolic_comprehension(I, e, env, module):
     if isinstance(e, ast.ListComp):
         return MList(V.VList(f(xs)))        # a list comprehension builds a new list object: the code may go on appending to it
     return SV(V.VList(f(xs)))
+
+
+def comp_dict_lemmas(dterm, k):
+    """{x: f(x) for x in xs} looked up at k - instances of two theorems (induction on xs) about the association list
+    pairs(xs) = [(x, f(x)) for x in xs]:   has(pairs(xs), k) <=> k in xs      has(pairs(xs), k) => get(pairs(xs), k) = f(k)
+    (found below any number of in-place updates d_set(...) of the dict)"""
+    out = []
+    l = z3.simplify(V.vd(dterm) if dterm.sort() == V.Val else dterm)
+    while z3.is_app(l) and l.decl().name() == "d_set":
+        l = l.arg(0)
+    ent = _MAP_BY_NAME.get(l.decl().name()) if z3.is_app(l) else None
+    if ent is not None and ent.get("keyed_by_elem") and l.num_args() == 1:
+        xs = l.arg(0)
+        pair = z3.simplify(z3.substitute(ent["body"], (ent["var"], k)))
+        out.append(V.d_has(l, k) == V.vcontains(xs, k))
+        out.append(z3.Implies(V.d_has(l, k), V.d_get(l, k) == z3.simplify(V.pval(pair))))
+    return out
 
 
 def merged_eval(I, elem, xs, gen, elt_expr, env, module, site, bound=None):
@@ -1584,6 +1620,9 @@ def _list(I, args, kwargs):
     if not args:
         return []
     x = args[0]
+    if isinstance(x, MSet):
+        _used("list(set): some enumeration of the members (which one depends on the hash seed: order scan, C10)")
+        return MList(V.VList(x.elems))
     if isinstance(x, (SV, MList)):
         t = lower(x)
         items = _concrete_list_items(_simpl(t))
@@ -1652,6 +1691,63 @@ def _all(I, args, kwargs):
         require_kind(I, t, V.is_VList, "all(arg)")
         return SV(V.VBool(V.vl_all(V.vl(t))))
     raise Unsupported("all() over symbolic sequence")
+
+
+class SymFilter:
+    """filter(pred, <symbolic list>): only consumed by next(..., default)"""
+
+    def __init__(self, pred, xs):
+        self.pred, self.xs = pred, xs
+
+
+@model(filter)
+def _filter(I, args, kwargs):
+    pred, xs = args
+    if isinstance(xs, (SV, MList)) and _concrete_list_items(_simpl(lower(xs))) is None:
+        return SymFilter(pred, _seq_term(I, xs))
+    if deep_symbolic(xs) and not isinstance(xs, (list, tuple)):
+        raise Unsupported("filter() over this symbolic value")
+    return [x for x in I.iterate(xs) if I.decide(I.call(pred, [x], {}) if pred is not None else x, "filter")]
+
+
+@model(next)
+def _next(I, args, kwargs):
+    it = args[0]
+    if isinstance(it, SymFilter) and len(args) == 2:
+        # over-approximation: SOME element that satisfies the predicate (the real code takes the first one), the default when no
+        # element does.  An element of a comprehension's result is the image of an element of its source.
+        _used("next(filter(p, xs), default): some element of xs satisfying p; the default when none does (quantified)")
+        xs = z3.simplify(it.xs)
+        ent = _MAP_BY_NAME.get(xs.decl().name()) if z3.is_app(xs) else None
+        some = I.p.fresh("some_element_satisfies")
+        if I.p.branch(z3.Const(some.decl().name() + "!flag", z3.BoolSort()), "next-filter-found"):
+            if ent is not None and ent["keep"] is None and xs.num_args() == 1:
+                I.p.assume(V.vcontains(xs.arg(0), some))
+                for c in elem_facts(I, xs.arg(0), some):
+                    I.p.assume(c)
+                r = z3.simplify(z3.substitute(ent["body"], (ent["var"], some)))
+                # the image of an element under every other unfiltered comprehension over the same source is in that comprehension's
+                # result (instances of: e in xs => body(e) in map(xs))
+                for m in list(I.p.maps_used.values()):
+                    if m.get("keep") is None and m.get("fn") is not None and z3.simplify(m["xs"]).eq(z3.simplify(xs.arg(0))):
+                        I.p.assume(V.vl_contains(m["fn"](xs.arg(0)), z3.simplify(z3.substitute(m["body"], (m["var"], some)))))
+            else:
+                I.p.assume(V.vcontains(xs, some))
+                for c in elem_facts(I, xs, some):
+                    I.p.assume(c)
+                r = some
+            I.p.assume(V.vcontains(xs, r))
+            v = I.call(it.pred, [SV(r)], {})
+            if not I.decide(v, "next-filter-predicate"):
+                raise PathAbort()
+            return SV(r)
+        e = z3.Const("__no_elem_satisfies__", V.Val)
+        sub = I.call(it.pred, [SV(e)], {})
+        if not isinstance(sub, SV):
+            raise Unsupported("next(filter(p, xs), d): the predicate is not a term of its argument")
+        I.p.assume(z3.ForAll([e], z3.Implies(V.vl_contains(xs, e), z3.Not(V.truthy(sub.t))), patterns=[V.vl_contains(xs, e)]))
+        return args[1]
+    raise Unsupported("next() of this iterator")
 
 
 @model(enumerate)
